@@ -233,7 +233,11 @@ def run_c12(tier, seed, replay):
                     if s["x"] == "FAULTS":
                         stats["faults"] += 1
                 if cid in r.munm:
-                    continue
+                    # outside the model from that step on.  The pair comparison needs no model (implementation with passes
+                    # against implementation without), but it needs deterministic commands: only GEOADD is let through
+                    names = set(s["name"] for s in withc[cid]["steps"] if s["conn"] >= 0)
+                    if not (names & {"GEOADD"}) or names & {"SPOP", "SRANDMEMBER", "RANDOMKEY"}:
+                        continue
                 stats["pairs_compared"] += 1
                 vs = P.compare_runs(withc[cid], without[cid])
                 if tag.startswith("faults"):
